@@ -458,6 +458,13 @@ def gen_iter(seed, idbase=0, nb=("BucketsSize", 128), kt="bytes", rounds=4, name
     iters(6)                                            # fresh, empty
     special = {0, n - 1, n - 8, n - 9, n - 10, n - 64, n - 65, 7, 8, 63, 64, 65, 71, 72, 119, 120, 127, 128, n // 2, n // 2 - 1}
     special = sorted(b for b in special if 0 <= b < n)
+    # every special bucket once as the ONLY occupied one (the scan enters its group from an empty table)
+    v0 = vids[0]
+    for b in special:
+        k = s.key_in_bucket(8 if n > 4096 else rng.choice([4, 8, 10]), n, b)
+        s.op("put", h=1, k=k, v=v0)
+        s.op("iter", h=1, flavour=rng.choice(FLAVOURS))
+        s.op("del", h=1, k=k)
     for r in range(rounds):
         targets = rng.sample(special, min(len(special), rng.randrange(1, 5))) + [rng.randrange(n) for _ in range(rng.randrange(0, 4))]
         for b in targets:
@@ -622,6 +629,8 @@ def gen_sync(seed, idbase=0, nops=160, nmaps=2, kill=False, name="sync"):
 
     # a map that was only created: flush, snapshot -> valid empty map
     m0 = rng.choice(maps)
+    if rng.random() < 0.5:
+        s.op("read_fill_buffer", h=m0["h"])
     s.op(rng.choice(["flush", "sync_all", "sync_data"]), h=m0["h"])
     snapshot([m0])
     kill_at = rng.randrange(nops // 2, nops) if kill else -1
@@ -646,6 +655,11 @@ def gen_sync(seed, idbase=0, nops=160, nmaps=2, kill=False, name="sync"):
         elif r < 0.80:
             s.op("get", h=wh, k=k)
         else:
+            if rng.random() < 0.35:
+                # read-only calls between the last update and the flush must not make the flush think it has nothing to do
+                s.op(rng.choice(["read_fill_buffer", "read_fill_buffer", "len", "iter"]), h=wh, **({"flavour": "iter"} if False else {}))
+                if s.ops[-1]["op"] == "iter":
+                    s.ops[-1]["flavour"] = rng.choice(FLAVOURS)
             if rng.random() < 0.7:
                 s.op(rng.choice(["flush", "sync_all", "sync_data"]), h=m["h"])
                 snapshot([m])
@@ -1433,6 +1447,13 @@ def gen_typed(seed, idbase=0, kt="u64", nb=("BucketsSize", 1), nops=250, name="t
             s.op("len", h=1)
         if i % 25 == 24:
             s.op("decode", **dec)
+        if i % 70 == 69:
+            # the session ends; the next one opens the map with parameters of its own
+            s.op("dump", h=1)
+            s.op(rng.choice(["drop_all", "new_process"]))
+            s.op("open_db", db=0, dir="d")
+            s.op("map", h=1, db=0, name="m", kt=kt, params=rng.choice(REOPEN_PARAMS))
+            s.op("dump", h=1)
     s.op("dump", h=1)
     s.op("new_process")
     s.op("decode", dir="d", name="m", native=True)
